@@ -476,6 +476,9 @@ func checkC12Value(c c12Case) (ci caseInfo, err error) {
 	if got := item.ToBytes(); !bytes.Equal(got, wantBytes) {
 		return ci, fmt.Errorf("%s: encoded as %x, want %x", desc, got, wantBytes)
 	}
+	if err := storedInList(desc, item, wantBytes, c.Pos+c.After); err != nil {
+		return ci, err
+	}
 	return ci, nil
 }
 
@@ -580,6 +583,9 @@ func genC12Value(t *rapid.T) c12Case {
 			c.Arg.Bits = math.Float64bits(rapid.SampledFrom(specials).Draw(t, "f64s"))
 		} else {
 			c.Arg.Bits = rapid.Uint64().Draw(t, "f64bits")
+			if rapid.IntRange(0, 3).Draw(t, "patternedF64") == 3 {
+				c.Arg.Bits = patternBits(t, 8)
+			}
 		}
 		return c
 	}
@@ -609,6 +615,15 @@ func genC12Value(t *rapid.T) c12Case {
 	var v *big.Int
 	if rapid.IntRange(0, 2).Draw(t, "randomInt") == 2 {
 		r := rapid.Uint64().Draw(t, "rbits")
+		if rapid.Bool().Draw(t, "patternedInt") {
+			// magnitudes of every bit length and byte patterns (zero / all-ones / sign-bit halves), sign-extended
+			w := rapid.SampledFrom([]int{1, 2, 4, 8}).Draw(t, "patW")
+			r = patternBits(t, w)
+			if rapid.Bool().Draw(t, "patSignExtend") {
+				sh := uint(64 - 8*w)
+				r = uint64(int64(r<<sh) >> sh)
+			}
+		}
 		c.Arg.Bits = r
 		return c
 	}
@@ -619,6 +634,35 @@ func genC12Value(t *rapid.T) c12Case {
 		c.Arg.Bits = v.Uint64()
 	}
 	return c
+}
+
+// storedInList: NewListNode stores the items it is given exactly too - the printed list shows the item's own printed text
+// (each of its lines, whatever the indentation) and the encoded list is its header followed by the items' bytes.
+func storedInList(desc string, item ast.ItemNode, wantBytes []byte, mode int) error {
+	sib := ast.NewUintNode(1, 7)
+	var list ast.ItemNode
+	var wantList []byte
+	switch mode % 3 {
+	case 0:
+		list = ast.NewListNode(item)
+		wantList = append([]byte{0x01, 0x01}, wantBytes...)
+	case 1:
+		list = ast.NewListNode(sib, item, sib)
+		wantList = append(append([]byte{0x01, 0x03, 0xA5, 0x01, 0x07}, wantBytes...), 0xA5, 0x01, 0x07)
+	default:
+		list = ast.NewListNode(ast.NewListNode(item), "held").FillVariables(map[string]interface{}{"held": item})
+		wantList = append(append([]byte{0x01, 0x02, 0x01, 0x01}, wantBytes...), wantBytes...)
+	}
+	printed := itemString(list)
+	for _, line := range strings.Split(itemString(item), "\n") {
+		if !strings.Contains(printed, strings.TrimSpace(line)) {
+			return fmt.Errorf("%s: as a list child the item prints differently: the list shows %q, the item alone %q", desc, clipStr(printed, 300), clipStr(itemString(item), 200))
+		}
+	}
+	if got := list.ToBytes(); !bytes.Equal(got, wantList) {
+		return fmt.Errorf("%s: as a list child the item is encoded differently: list %x, want %x", desc, got, wantList)
+	}
+	return nil
 }
 
 func TestC12Value(t *testing.T) {
@@ -676,6 +720,9 @@ func checkC12ASCII(c c12ASCII) (ci caseInfo, err error) {
 	}
 	if item.Size() != len(s) {
 		return ci, fmt.Errorf("ASCII %q: Size() = %d", s, item.Size())
+	}
+	if err := storedInList(fmt.Sprintf("ASCII %q", s), item, want, len(s)); err != nil {
+		return ci, err
 	}
 	return ci, nil
 }
